@@ -9,10 +9,10 @@
 (* Event: [op, law, x, y, z, n, out, out2, exc]; ring elements are integer *)
 (* sequences, a 2x2 matrix is <<k, 16 ints>>, a 3x3 matrix <<k, 18 ints>>; *)
 (* exc = "" (returned), "None" (returned None) or the exception class.     *)
-(* Clauses: "V:..." property violation, "D:..." drift (mechanism / outside *)
-(* the statement: counted, never a violation), "M:..." malformed event.    *)
-(* Output: <<"F", tid, event, kind, clause, info>> per flagged event and   *)
-(* <<"V", tid, #V, #D>> per trace.                                         *)
+(* Kinds: "V" property violation, "D" drift (mechanism / outside the       *)
+(* statement: counted, never a violation), "M" malformed event.            *)
+(* Output: ["F", tid, event, kind, clause, info] (JSON) per flagged event  *)
+(* and <<"V", tid, #V, #D>> per trace.                                     *)
 (***************************************************************************)
 EXTENDS ZRings, Json, IOUtils, FiniteSets
 CONSTANT NTRACES
@@ -239,7 +239,7 @@ Check(ev) ==
 TInit == tid \in 1..NTRACES /\ l = 1 /\ nv = 0 /\ nd = 0
 TStep == /\ l <= Len(Tr.events)
          /\ \E c \in {Check(Ev)} :
-              /\ (c[1] # "" => PrintT(<<"F", tid, l, c[1], c[2], c[3]>>))
+              /\ (c[1] # "" => PrintT(ToJson(<<"F", tid, l, c[1], c[2], c[3]>>)))         \* (JSON: one line whatever the length)
               /\ nv' = nv + (IF c[1] \in {"V", "M"} THEN 1 ELSE 0)
               /\ nd' = nd + (IF c[1] = "D" THEN 1 ELSE 0)
          /\ l' = l + 1 /\ UNCHANGED tid
